@@ -84,12 +84,13 @@ def error_code_alphabet():
     return _error_codes
 
 
-def leaf_alphabet(ws, f, mode, max_len, item=False):
+def leaf_alphabet(ws, f, mode, max_len, item=False, default_of=None):
+    default_of = default_of or bridge.wire_default
     """Ordered alphabet (simplest first) of wire values for one scalar slot."""
     kt = f.kafka_type
-    compact = ws.flexible and not (ws.is_request_header and f.name == "client_id")
+    compact = ws.flexible and not (ws.is_request_header and getattr(f, "pyname", f.name) == "client_id")
     nullable = f.item_nullable if item else f.nullable
-    if ws.is_request_header and f.name == "client_id":
+    if ws.is_request_header and getattr(f, "pyname", f.name) == "client_id":
         nullable = True
     if kt in I:
         out = int_alphabet(*I[kt])
@@ -120,7 +121,7 @@ def leaf_alphabet(ws, f, mode, max_len, item=False):
     if nullable and None not in out:
         out.insert(1, None)
     if not item and f.has_default and not f.array:
-        d = bridge.wire_default(f)
+        d = default_of(f)
         if not any(bridge.same_wire(d, x) for x in out):
             out.insert(1, d)
         if f.tag is not None:  # base of a tagged field = its default (elided on the wire)
@@ -184,14 +185,15 @@ def x_alternatives(ws):
     return alts
 
 
-def build(ws, mode="value", max_len=16384, path="", frozen_below=None, depth=0):
+def build(ws, mode="value", max_len=16384, path="", frozen_below=None, depth=0, default_of=None):
+    default_of = default_of or bridge.wire_default
     children = []
     for f in ws.fields:
         p = f"{path}.{f.name}"
         if f.nested is not None:
-            elem = build(f.nested, mode, max_len, p, frozen_below, depth + 1)
+            elem = build(f.nested, mode, max_len, p, frozen_below, depth + 1, default_of)
         else:
-            elem = Leaf(p, leaf_alphabet(ws, f, mode, max_len, item=f.array))
+            elem = Leaf(p, leaf_alphabet(ws, f, mode, max_len, item=f.array, default_of=default_of))
         if f.array:
             node = ArrN(elem, f.nullable, p, variant_b(elem))
         elif f.nested is not None and f.nullable:
@@ -199,7 +201,7 @@ def build(ws, mode="value", max_len=16384, path="", frozen_below=None, depth=0):
         else:
             node = elem
         if f.tag is not None and (f.array or f.nested is not None):
-            node = DefaultFirst(node, bridge.wire_default(f), p)
+            node = DefaultFirst(node, default_of(f), p)
         children.append((f.name, node))
     if mode == "wire" and ws.flexible:
         children.append(("__x__", Leaf(f"{path}.<tags>", x_alternatives(ws))))
@@ -348,13 +350,13 @@ def explore(ws, k, mode="value", max_len=16384, own_k=None, max_states=None):
 
 
 class Explorer:
-    def __init__(self, ws, k, mode="value", max_len=16384, own_k=None, cap=None):
+    def __init__(self, ws, k, mode="value", max_len=16384, own_k=None, cap=None, default_of=None):
         self.ws, self.k, self.mode = ws, k, mode
-        self.tree = build(ws, mode, max_len)
+        self.tree = build(ws, mode, max_len, default_of=default_of)
         self.own_tree = None
         self.own_k = own_k
         if own_k is not None and own_k > k:
-            self.own_tree = build(ws, mode, max_len, frozen_below=0)
+            self.own_tree = build(ws, mode, max_len, frozen_below=0, default_of=default_of)
         self.cap = cap
         self.edit_sets = 0
         self.transitions = 0
